@@ -1,5 +1,6 @@
 """C09 MCMC kernels implement their algorithm and never leave the target's support."""
 import numpy as np
+from fractions import Fraction
 
 import elfi.methods.mcmc as mcmc
 
@@ -63,11 +64,13 @@ class Target:
 
     def kind(self, x):
         ctx = self.ctx
+        if not ctx.symbolic:
+            # concrete twin: the kind the model assigns to this point; points the model says nothing about are finite
+            v = ctx.uf_table('TKIND', [float(a) for a in x], None) if ctx.tables.get('TKIND') else None
+            return int(v) % (max(self.kinds) + 1) if v is not None else 0
         k = ctx.apply_uf('TKIND', list(x), sort='int')
-        if ctx.symbolic:
-            ctx.assume(And(k >= 0, k <= max(self.kinds)))
-            return ctx.concretize(k.t)
-        return int(k) % (max(self.kinds) + 1)
+        ctx.assume(And(k >= 0, k <= max(self.kinds)))
+        return ctx.concretize(k.t)
 
     def __call__(self, x):
         x = list(np.asarray(x, dtype=object).reshape(-1)) if self.ctx.symbolic else [float(v) for v in np.reshape(x, -1)]
@@ -85,16 +88,25 @@ class Target:
         return ctx.array([ctx.apply_uf('GRADT%d' % i, x) for i in range(self.dim)])
 
 
-def h_metropolis(ctx, dim, n_samples, warmups=(0, 1)):
+def h_metropolis(ctx, dim, n_samples, warmups=(0, 1), start_dtype=None):
     T = Target(ctx, dim)
-    p0 = [ctx.real('p0_%d' % i) for i in range(dim)]
+    if start_dtype is None:
+        p0 = [ctx.real('p0_%d' % i) for i in range(dim)]
+        start = ctx.array(p0)
+    else:
+        # the starting point is an ordinary numpy array of another dtype than float64 (integer initials, float32):
+        # solver-chosen small values that this dtype represents exactly
+        grid = {'int64': [-1, 0, 2], 'float32': [-0.5, 0.25, 1.5]}[start_dtype]
+        p0 = [grid[ctx.choice('p0_%d_sel' % i, len(grid))] for i in range(dim)]
+        start = np.array(p0, dtype=start_dtype)
+        p0 = [Fraction(v).limit_denominator(4) for v in p0] if ctx.symbolic else [float(v) for v in p0]
     sig = [ctx.real('sigma_%d' % i, 0, None, lo_open=True) for i in range(dim)]
     warmup = warmups[ctx.choice('warmup_sel', len(warmups))]
     seed = 3
     raised = None
     with env(ctx):
         try:
-            out = mcmc.metropolis(n_samples, ctx.array(p0), T, ctx.array(sig), warmup=warmup, seed=seed)
+            out = mcmc.metropolis(n_samples, start, T, ctx.array(sig), warmup=warmup, seed=seed)
         except ValueError as e:
             raised = e
     k0 = T.kind(p0)
@@ -124,7 +136,7 @@ def h_metropolis(ctx, dim, n_samples, warmups=(0, 1)):
         chain.append(list(cur))
     for j in range(n_samples):
         ref = chain[warmup + j]
-        ctx.claim('state_%d_is_the_metropolis_chain_state' % j, And(*[close(out[j][i], ref[i], 1e-7) for i in range(dim)]))
+        ctx.claim('state_%d_is_the_metropolis_chain_state' % j, And(*[close(out[j][i], ref[i], 1e-10, 1e-12) for i in range(dim)]))
         ctx.claim('state_%d_has_finite_log_target' % j, T.kind(list(out[j])) == 0)
     ctx.claim('only_the_seeded_generator_is_used', Global.log == [] and SeedRS.made == [seed])
     ctx.claim('draws_used', True)
@@ -250,6 +262,10 @@ def h_nuts_concrete_depth(ctx, dim):
 HARNESSES = [
     H('metropolis_d1_n2', h_metropolis, dict(dim=1, n_samples=2), bounds='dim 1, 2 samples, warm-up in {0,1}'),
     H('metropolis_d2_n2', h_metropolis, dict(dim=2, n_samples=2, warmups=(0,)), bounds='dim 2, 2 samples, warm-up 0'),
+    H('metropolis_d1_n2_int_start', h_metropolis, dict(dim=1, n_samples=2, warmups=(0,), start_dtype='int64'),
+      bounds='dim 1, 2 samples, starting point an int64 array with a value from {-1,0,2}'),
+    H('metropolis_d2_n1_float32_start', h_metropolis, dict(dim=2, n_samples=1, warmups=(0,), start_dtype='float32'),
+      bounds='dim 2, 1 sample, starting point a float32 array with values from {-0.5,0.25,1.5}'),
     H('metropolis_d1_n3', h_metropolis, dict(dim=1, n_samples=3), bounds='dim 1, 3 samples, warm-up in {0,1}', tiers=('thorough',)),
     H('metropolis_d2_n3', h_metropolis, dict(dim=2, n_samples=3), bounds='dim 2, 3 samples, warm-up in {0,1}', tiers=('thorough',)),
     H('nuts_base_d1', h_nuts_base, dict(dim=1), bounds='_build_tree_nuts depth 0, dim 1, arbitrary inputs'),
